@@ -134,9 +134,11 @@ structure Mon where
   succPending : Option String := none   -- the stop task has succeeded; the next main loop must stop
   since : Nat := 0                      -- index of the observation after the latest (re)start
   spec : Option Int := none             -- the stop point in force according to the commands given (spec side)
+  names : List String := []             -- the tasks of the definition in force (start-up, then every executed reload)
 
-def judgeTrace (cfgStop : Option Int) (fcp : Int) (ops : Array Op) (obs : Array Ob) : Option String := Id.run do
-  let mut m : Mon := { spec := some (cfgStop.getD fcp) }
+def judgeTrace (cfgStop : Option Int) (fcp : Int) (names0 : List String) (ops : Array Op) (obs : Array Ob) :
+    Option String := Id.run do
+  let mut m : Mon := { spec := some (cfgStop.getD fcp), names := names0 }
   for i in [1:obs.size] do
     let pre := obs[i-1]!
     let cur := obs[i]!
@@ -236,7 +238,11 @@ def judgeTrace (cfgStop : Option Int) (fcp : Int) (ops : Array Op) (obs : Array 
     | Op.stopPoint p =>
       if cur.sp == some p && pre.sp != some p then m := { m with dbsp := some p }
       if cur.sp == some p then m := { m with spec := some p }
-    | Op.reload _ _ skipped =>
+    | Op.reload ng _ skipped =>
+      if !skipped && !stopping then
+        match ng with
+        | some g' => m := { m with names := g'.tasks.map (·.name) }
+        | none => pure ()
       -- SR (if this main loop shut the scheduler down the queued command did not run)
       if !skipped && !stopping then
         if cur.sp != pre.sp then
@@ -252,6 +258,13 @@ def judgeTrace (cfgStop : Option Int) (fcp : Int) (ops : Array Op) (obs : Array 
           | some u => if u.st != t.st || u.sn != t.sn then
               return some s!"obs {i}: restart turned {tid t.p t.n} from {t.st}/{t.sn} into {u.st}/{u.sn}"
           | none => return some s!"obs {i}: restart lost the active task {tid t.p t.n} ({t.st})"
+      -- S3t: a stop task that has not finished is still the stop task after the restart (unless a reload removed
+      -- its definition: the restarted scheduler refuses a stop task it does not know)
+      let known := match pre.stopTask with
+        | some id => m.names.contains ((id.splitOn "/").getLastD "")
+        | none => false
+      if known && cur.stopTask != pre.stopTask then
+        return some s!"obs {i}: the stop task {pre.stopTask} did not survive the restart ({cur.stopTask})"
       -- S3
       let configured := cfgStop.getD fcp
       if m.reached then
@@ -293,7 +306,7 @@ def handle (i o : Json) : Except String Reply := do
   let obs := ((obsList o).map parseOb).toArray
   if obs.size != c.ops.length + 1 then
     return { model := modelObs c, holds := false, why := "trace length differs from the op list" }
-  match judgeTrace g.cfgStop g.fcp c.ops.toArray obs with
+  match judgeTrace g.cfgStop g.fcp (g.tasks.map (·.name)) c.ops.toArray obs with
   | some w => return { model := modelObs c, holds := false, why := w }
   | none => return { model := modelObs c, holds := true }
 
